@@ -260,19 +260,25 @@ def check_ce(spec, ctx):
     doc = saved_doc(ev)
     d = doc["data"]
     new_matches = []
+    listed = []
+    same_id_twice = "dup" in applied and spec["pick"] % 2 == 0  # the duplicate is the very same match (its id listed twice)
     for a in arr:
+        if same_id_twice and any(a == b for b, _ in listed):
+            listed.append((a, next(u for b, u in listed if b == a)))
+            continue
         mo = {"uuid": ids(), "affinity": 0.5}
         if a[0] is not None:
             mo["source"] = str(obj_s(a[0]).uuid)
         if a[1] is not None:
             mo["target"] = str(obj_t(a[1]).uuid)
         new_matches.append(mo)
+        listed.append((a, mo["uuid"]))
     keep = [m for m in d.get("matches") or [] if m["uuid"] not in {str(x.uuid) for x in canon}]
     d["matches"] = keep + new_matches
     for e in d["clip_evaluations"]:
         if e["uuid"] == str(ce_ok.uuid):
-            e["matches"] = [m["uuid"] for m in new_matches]
-            if not new_matches and spec["pick"] % 2:
+            e["matches"] = [u for _, u in listed]
+            if not listed and spec["pick"] % 2:
                 del e["matches"]  # key left out of the document instead of an empty list
     if spec["pairing"] != "same":
         for c in d["clip_predictions"]:
@@ -404,6 +410,32 @@ def check_clip(spec, ctx):
     ctx.case(spec, nontrivial=spec["rel"] in ("equal", "ulp_before", "ulp_after", "zero_negzero"), labels=[spec["rel"], "exp=ok" if exp else "exp=reject"])
     kw = {"uuid": ids(), "recording": rec, "start_time": s, "end_time": e}
     try_paths(ctx, spec, data.Clip, kw, exp, f"Clip(start_time={s!r}, end_time={e!r})")
+    # the same two times in other (value-preserving) representations, as they come out of numpy code, a database or a text file
+    import decimal
+    import fractions
+
+    import numpy as np
+    import pydantic
+
+    reps = {"numpy.float64": np.float64, "Decimal": decimal.Decimal, "Fraction": fractions.Fraction, "numpy.float32": np.float32, "numpy.int64": np.int64}
+    for rname, f in reps.items():
+        try:
+            rs, re_ = f(s), f(e)
+            if float(rs) != float(s) or float(re_) != float(e):
+                continue  # not value-preserving for these two numbers (float32 rounding, int of a fraction)
+        except (ValueError, TypeError, OverflowError):
+            continue
+        for path in ("ctor", "dict"):
+            try:
+                if path == "ctor":
+                    data.Clip(uuid=ids(), recording=rec, start_time=rs, end_time=re_)
+                else:
+                    data.Clip.model_validate({"uuid": ids(), "recording": rec, "start_time": rs, "end_time": re_})
+                ok = True
+            except pydantic.ValidationError:
+                ok = False
+            if ok != exp:
+                ctx.fail(f"Clip(start_time={rs!r}, end_time={re_!r}) given as {rname} via {path}: {'accepted' if ok else 'rejected'}, the same numbers as floats are {'accepted' if exp else 'rejected'}", spec, ok, exp, kind="false_accept" if ok else "false_reject")
     good = data.Clip(uuid=ids(), recording=rec, start_time=0.0, end_time=1.0)
     doc = saved_doc(data.AnnotationSet(uuid=ids(), created_on="2020-01-01T00:00:00", clip_annotations=[data.ClipAnnotation(uuid=ids(), clip=good, created_on="2020-01-01T00:00:00")]))
     doc["data"]["clips"][0]["start_time"] = s
